@@ -802,9 +802,10 @@ def regenerate_routes() -> dict:
 PROG_MODULES = {"RingProg": "progtx", "RecordProg": "progtx_record", "HookProg": "progtx_hooks", "UpdaterProg": "progtx_updater", "ReducerProg": "progtx_reducer", "LayerProg": "progtx_layer",
                 "EncoderProg": "progtx_encoder", "SelectProg": "progtx_select", "ConfigProg": "progtx_config", "ConnProg": "progtx_conn",
                 "NeuronProg": "progtx_neuron", "MathProg": "progtx_math", "DelaySTDPProg": "progtx_delaystdp",
-                "SynapseProg": "progtx_synapse", "LifecycleProg": "progtx_lifecycle", "STDPProg": "progtx_stdp", "PersistProg": "progtx_persist"}
+                "SynapseProg": "progtx_synapse", "LifecycleProg": "progtx_lifecycle", "STDPProg": "progtx_stdp", "PersistProg": "progtx_persist",
+                "MonitorProg": "progtx_monitor", "NHookProg": "progtx_nhooks", "EncClsProg": "progtx_enccls"}
 PROG_USES = {"RecordProg": ["RingProg"], "SelectProg": ["RingProg"], "ConfigProg": ["RecordProg", "RingProg"],
-             "NeuronProg": ["NeuronDynamics", "NeuronAdaptation"], "PersistProg": []}
+             "NeuronProg": ["NeuronDynamics", "NeuronAdaptation"], "PersistProg": [], "MonitorProg": ["HookProg"], "EncClsProg": ["EncoderProg"]}
 
 
 def regenerate(mods: list[str] | None = None) -> dict:
